@@ -48,7 +48,7 @@ def main():
         if rc != 0:
             meta["patch_output"] = out[-1500:]
             return finish(meta, src, seed)
-        rc, out = sh("PYTHONPATH=%s /venv/bin/python -m pytest -q -p no:cacheprovider --timeout=900 -x -q 2>&1 | tail -3" % copy, cwd=copy)
+        rc, out = sh("PYTHONPATH=%s /venv/bin/python -m pytest -q -p no:cacheprovider --timeout=900 2>&1 | tail -5" % copy, cwd=copy)
         m = re.search(r"(\d+) passed", out)
         meta["tests_passed"] = int(m.group(1)) if m else 0
         meta["tests_ok"] = bool(m) and int(m.group(1)) >= 366 and " failed" not in out
